@@ -479,6 +479,8 @@ func runC12(ctx *core.Ctx) {
 			}
 		}
 		whoRemoves(ctx, "P4")
+		presentFileNotRewritten(ctx, "P10")
+		putAlwaysCopies(ctx, "P11")
 
 	}
 
